@@ -261,6 +261,36 @@ def segment_unit(v, seg, res):
     s = build()
     s.add(Field(version=v))
     expect_invalid(res, s, 'segment', 'unknown-element', v, seg, '(unnamed field)', dict(point, mut=['unknown']), [seg, 'Unknown'])
+    # a field of a base datatype that received two components, a component of a base datatype that received two subcomponents
+    # (TOLERANT accepts the text; the validator must report the element)
+    for r_ in rows:
+        if not r_.ok or (seg == 'MSH' and r_.name in ('MSH_1', 'MSH_2', 'MSH_12')):
+            continue
+        if r_.kind == 'leaf' and r_.datatype not in ('varies', None) and r_.card[1] != 0:
+            s = build(skip=r_.name)
+            lit = conform.leaf_text(v, r_.datatype)
+            try:
+                setattr(s, r_.name.lower(), lit + ec['COMPONENT'] + lit)
+            except Exception as e:
+                res.dims['components in a base field refused at assignment'] += 1
+                continue
+            expect_invalid(res, s, 'segment', 'components-in-base-field', v, seg, r_.name, dict(point, mut=['split', r_.name]), [r_.name])
+        elif r_.kind != 'leaf' and r_.card[1] != 0:
+            leafc = [c for c in r_.children if c.kind == 'leaf' and c.datatype not in ('varies', None) and c.card[1] != 0]
+            if leafc:
+                c = leafc[0]
+                s = build(skip=r_.name)
+                lit = conform.leaf_text(v, c.datatype)
+                j = tables.comp_index(c.name)
+                text = conform.field_text(v, r_, ec).split(ec['COMPONENT'])
+                text += [''] * (j - len(text))
+                text[j - 1] = lit + ec['SUBCOMPONENT'] + lit
+                try:
+                    setattr(s, r_.name.lower(), ec['COMPONENT'].join(text))
+                except Exception as e:
+                    res.dims['subcomponents in a base component refused at assignment'] += 1
+                    continue
+                expect_invalid(res, s, 'segment', 'subcomponents-in-base-component', v, seg, c.name, dict(point, mut=['split', r_.name, c.name]), [c.name])
     # datatype override on the first complex field
     for r_ in rows:
         if r_.ok and r_.kind != 'leaf' and not (seg == 'MSH' and r_.name in ('MSH_1', 'MSH_2')):
@@ -321,6 +351,74 @@ def datatype_unit(v, res):
     res.dims['datatype versions'] += 1
 
 
+def dt_field(v, dt, name, ec, skip=None):
+    """conforming Z field of a complex datatype: required components (the first usable one if none is required)"""
+    from hl7apy.core import Field
+    rows = tables.datatype_rows(v, dt)
+    f = Field(name, datatype=dt, version=v)
+    for r_ in rows:
+        if r_.card[0] >= 1 and r_.name != skip:
+            setattr(f, r_.name.lower(), conform.comp_text(v, r_, ec))
+    usable = [r_ for r_ in rows if r_.card[1] != 0]
+    if not f.children and usable and usable[0].name != skip:
+        setattr(f, usable[0].name.lower(), conform.comp_text(v, usable[0], ec))
+    return f
+
+
+def zseg_unit(v, tier, res):
+    """Z segments holding fields of two (three) different complex datatypes, in both orders; on their own and inside a
+    conforming message; then the same with one required component missing from the last field"""
+    from hl7apy.core import Segment
+    from hl7apy.parser import parse_message
+    ec = refmodel.default_ec(v)
+    dts = tables.complex_datatypes(v)
+    n = len(dts)
+    pairs = []
+    for i, a in enumerate(dts):
+        for step in ((1, 2) if tier == 'quick' else range(1, n)):
+            b = dts[(i + step) % n]
+            if a != b:
+                pairs.append((a, b))
+                pairs.append((b, a))
+    pairs = sorted(set(pairs))
+    host_tree = [t for label, t in st.instances(v, 'ACK', ('required',))][0]
+    for k, (a, b) in enumerate(pairs):
+        point = {'kind': 'zseg', 'v': v}
+        res.evaluations += 1
+        res.enumerated += 1
+        res.states += 1
+        res.transitions += 1
+        try:
+            z = Segment('ZZ1', version=v)
+            z.add(dt_field(v, a, 'ZZ1_1', ec))
+            z.add(dt_field(v, b, 'ZZ1_2', ec))
+            if k % 3 == 0:
+                z.add(dt_field(v, dts[(dts.index(b) + 1) % n], 'ZZ1_3', ec))
+            target = z
+            if k % 5 == 0:
+                target = conform.build_message(v, 'ACK', host_tree)
+                if not target.validate(return_errors=True).is_valid:
+                    raise common.HarnessError('the conforming ACK host does not validate in v%s' % v)
+                target.add(z)
+            r = target.validate(return_errors=True)
+        except Exception as e:
+            res.violation('build-raises|%s|zseg|%s' % (v, exc_class(e)), 'Z segment with fields of datatypes %s, %s (v%s): %s: %s' % (a, b, v, exc_class(e), e), point, 0)
+            continue
+        res.validated += 1
+        if not r.is_valid:
+            res.violation('conforming-invalid|%s|zseg|%s' % (v, norm(errs(r)[0])), 'Z segment %r with conforming fields of datatypes %s, %s (v%s) does not validate: %s'
+                          % (z.to_er7(), a, b, v, errs(r)[:2]), point, 0)
+            continue
+        res.classes['conforming-valid'] += 1
+        req = [r_ for r_ in tables.datatype_rows(v, b) if r_.card[0] >= 1]
+        if req:
+            z = Segment('ZZ1', version=v)
+            z.add(dt_field(v, a, 'ZZ1_1', ec))
+            z.add(dt_field(v, b, 'ZZ1_2', ec, skip=req[0].name))
+            expect_invalid(res, z, 'zsegment', 'missing-required', v, b, req[0].name, point, [req[0].name])
+    res.dims['z segments: datatype pairs'] += len(pairs)
+
+
 def units(tier):
     us = []
     for v in VERSIONS:
@@ -335,6 +433,7 @@ def units(tier):
             us.append(('seg', v, tuple(segs[i:i + 12])))
         if tier != 'quick':
             us.append(('dt', v))
+        us.append(('zseg', v))
     return us
 
 
@@ -346,6 +445,8 @@ def run_unit(unit, tier):
     elif unit[0] == 'seg':
         for seg in unit[2]:
             segment_unit(unit[1], seg, res)
+    elif unit[0] == 'zseg':
+        zseg_unit(unit[1], tier, res)
     else:
         datatype_unit(unit[1], res)
     res.expected_size = res.enumerated
@@ -364,5 +465,7 @@ def replay(point, res):
         message_unit(point['v'], point['name'], res, point.get('ref', 'standard'))
     elif point['kind'] == 'segment':
         segment_unit(point['v'], point['seg'], res)
+    elif point['kind'] == 'zseg':
+        zseg_unit(point['v'], 'quick', res)
     else:
         datatype_unit(point['v'], res)
